@@ -88,7 +88,7 @@ Case(s) ==
       \* inside another meta block the stack is shared (same mode; pinned by test_meta_stack) and
       \* several values are not reversed: only single-valued, stack-insensitive blocks are judged there
       skip   == s.p = 4 /\ (~eOk \/ Len(vals) # 1 \/ E[s.e] \in {<<"depth">>, <<"dup">>, <<"drop">>}
-                              \/ (\E k \in 1..Len(E[s.e]) : E[s.e][k] = "#(") /\ (\E k \in 1..Len(E[s.e]) : E[s.e][k] = ":"))   \* a block in a definition in e is compiled against the shared stack
+                              \/ ((\E k \in 1..Len(E[s.e]) : E[s.e][k] = "#(") /\ (\E k \in 1..Len(E[s.e]) : E[s.e][k] = ":")))   \* a block in a definition in e is compiled against the shared stack
   IN [ skip |-> IF skip THEN 1 ELSE 0, prior |-> Prior[s.h], with |-> Texts(withT), inl |-> Texts(inlT), style |-> s.style, eok |-> IF eOk THEN 1 ELSE 0,
        werr |-> w.err, wvis |-> X!Visible(w), wout |-> w.out,
        agree |-> (IF ~X!Ok(h0) \/ skip THEN TRUE
